@@ -155,7 +155,7 @@ fg_run = Fn('src/builtins/fg.rs', 'run', rename='fg_run', ret='r', pre_rewrites=
     requires=[('C07.pre.fg.shell_owns_terminal', 'old(w).target.is_none() && old(w).tty_pgrp == old(w).pgrp')],
     ensures=[
         ('C07.fg.terminal_is_the_shells_again', 'final(w).tty_pgrp == final(w).pgrp && final(w).pgrp == old(w).pgrp'),
-        ('C07.fg.the_job_found_is_resumed_as_a_whole_group_and_all_members_waited_for',
+        ('C06+C07.fg.the_job_found_is_resumed_as_a_whole_group_and_all_members_waited_for',
          'final(w).waited == old(w).waited || (final(w).target.is_some() '
          '&& final(w).signals == old(w).signals.push((final(w).target.unwrap().0, SIGCONT as int)) '
          '&& final(w).marked_running == old(w).marked_running.push((final(w).target.unwrap().0, false)) '
